@@ -19,7 +19,7 @@ import (
 func init() {
 	Props["C13"] = &harness.Prop{
 		ID:             "C13",
-		Rule:           "file_handler.Handle on the main thread over a scripted source under the controlled scheduler with a virtual clock: the source hands over one byte per Read; at EVERY Read (so at every byte position between and inside frames) the explorer may instead inject a run of 1, 2, 3 or 4 consecutive EOFs, 1 or 4 consecutive i/o timeouts, another error, a 3-byte chunk, or two bytes handed over TOGETHER with EOF, with a timeout or with another error (as io.Reader permits); after the data it reports EOF for ever or another error. Streams {frame, junk+frame, frame+frame, frame+truncated, frame+junk+frame, 1077/8}; tolerance settings {timeout 0; timeout 50 ms wait 10 ms; timeout 50 ms wait 0}; message channel capacity {0,1}; the consumer may pause 200 ms (virtual) before accepting any message (one deviation per pause); all combinations of <=2 (quick) / <=3 (thorough) deviations (fault injections + preemptions), with state-key pruning; an unbounded pass is not attempted because the number of fault placements is unbounded by construction. Non-trivial = distinct schedule/fault trace",
+		Rule:           "file_handler.Handle on the main thread over a scripted source under the controlled scheduler with a virtual clock: the source hands over one byte per Read; at EVERY Read (so at every byte position between and inside frames) the explorer may instead inject a run of 1, 2, 3 or 4 consecutive EOFs, 1 or 4 consecutive i/o timeouts, another error, a 3-byte chunk, or two bytes handed over TOGETHER with EOF, with a timeout or with another error (as io.Reader permits); after the data it reports EOF for ever or another error. Streams {frame, junk+frame, frame+frame, frame+truncated, frame+junk+frame, 1077/8}; tolerance settings {timeout 0 wait 0; timeout 0 wait 10 ms; timeout 5 ms wait 10 ms; timeout 50 ms wait 10 ms; timeout 50 ms wait 0}; message channel capacity {0,1}; the consumer may pause 200 ms (virtual) before accepting any message (one deviation per pause); all combinations of <=2 (quick) / <=3 (thorough) deviations (fault injections + preemptions), with state-key pruning; an unbounded pass is not attempted because the number of fault placements is unbounded by construction. Non-trivial = distinct schedule/fault trace",
 		Assumptions:    []string{"time is virtual: time.Now/time.Sleep of file_handler are routed to the scheduler's clock; a sleeping thread may be resumed at any later step and the clock then jumps to its wake time", "fault results are io.EOF, an error whose text contains 'i/o timeout', and 'connection reset by peer' as the other error", "'resumes within the tolerance' is judged on the handler's own clock: the run of consecutive EOF/timeout results ends before virtual time since its first result exceeds the configured timeout"},
 		Scenarios:      c13Scenarios,
 		QuickBudget:    60 * time.Second,
@@ -51,7 +51,9 @@ func c13Scenarios(tier string) []*mcrt.Scenario {
 		name          string
 		timeout, wait uint
 	}
-	cfgs := []cfg{{"timeout=0", 0, 0}, {"timeout=50ms,wait=10ms", 50, 10}, {"timeout=50ms,wait=0", 50, 0}}
+	cfgs := []cfg{{"timeout=0", 0, 0}, {"timeout=50ms,wait=10ms", 50, 10}, {"timeout=50ms,wait=0", 50, 0},
+		// the options are independent in the JSON: a retry pause without a tolerance, and a pause longer than the tolerance
+		{"timeout=0,wait=10ms", 0, 10}, {"timeout=5ms,wait=10ms", 5, 10}}
 	bound := 2
 	if tier == "thorough" {
 		bound = 3
